@@ -63,6 +63,12 @@ def ksplit(n):
 
 kfold = UFun("kfold", [KeyS, z3.IntSort()], KeyS)
 kseed = UFun("kseed", [z3.IntSort()], KeyS)
+kwrap = UFun("kwrap", [z3.IntSort(), z3.IntSort()], KeyS)          # key built from raw (symbolic) key data
+
+
+def kdata(i):
+    """i-th 32-bit word of a key's raw data (uninterpreted; jointly injective, see concrete.key_injectivity)"""
+    return UFun(f"kdata{i}", [KeyS], z3.IntSort())
 
 UNARY_T = ("exp log log1p expm1 sin cos tan tanh sqrt rsqrt erf erf_inv logistic exp2 asin acos atan sinh cosh "
            "cbrt lgamma digamma").split()
@@ -78,6 +84,8 @@ class Interp:
         self.assumptions = []  # facts introduced by the interpreter (definitions of fresh symbols)
         self.while_bound = while_bound
         self.io_seq = 0
+        self.guards = []       # path conditions of the enclosing symbolic cond branches / while iterations
+        self.effects = []      # host effects in program order: {"kind", "seq", "ordered", "params", "ins", "outs", "guard"}
         self.uf_impl = uf_impl  # optional concrete implementation of `uf` (validation runs)
         self.uf_apps = []       # (name, out index, element index, operand terms, result term)
         self.prim_count = {}
@@ -766,7 +774,13 @@ class Interp:
             b = brs[int(c)]
             return self.run(b.jaxpr, b.consts, list(ops))
         isb = z3.is_bool(c)
-        res = [self.run(b.jaxpr, b.consts, list(ops)) for b in brs]
+        res = []
+        for j, b in enumerate(brs):
+            self.guards.append((z3.Not(c) if j == 0 else c) if isb else (c <= 0 if j == 0 else (c >= j if j == len(brs) - 1 else c == j)))
+            try:
+                res.append(self.run(b.jaxpr, b.consts, list(ops)))
+            finally:
+                self.guards.pop()
         outs = []
         for k in range(len(res[0])):
             acc = res[-1][k]
@@ -789,7 +803,11 @@ class Interp:
                 return carry
             if it == self.while_bound:
                 break
-            new = self.run(bj.jaxpr, bj.consts, bconsts + carry)
+            self.guards.append(active)
+            try:
+                new = self.run(bj.jaxpr, bj.consts, bconsts + carry)
+            finally:
+                self.guards.pop()
             carry = [emap(lambda n, o_, a=active: self.o.ite(a, n, o_), n, o_) for n, o_ in zip(new, carry)]
         # unwinding obligation: the loop condition must be false here on every feasible path
         self.side.append(("unwind", active))
@@ -818,14 +836,28 @@ class Interp:
         for i in np.ndindex(*out.shape):
             d = x[i]
             if not all(isconc(v) for v in d):
-                raise Unsupported("random_wrap of symbolic data")
+                if len(d) != 2:
+                    raise Unsupported("random_wrap of symbolic data of a non-default key implementation")
+                out[i] = kwrap(self.o.z(d[0]), self.o.z(d[1]))
+                continue
             out[i] = kseed(z3.IntVal(int(d[-1]) + (int(d[0]) << 32)))
+        return out
+
+    def p_random_unwrap(self, e, k):
+        # key -> raw key data: concrete words for a concrete key, uninterpreted words otherwise
+        shp = tuple(e.outvars[0].aval.shape)
+        nw = shp[-1]
+        out = np.empty(shp, dtype=object)
+        for i in np.ndindex(*k.shape):
+            t = k[i]
+            conc = z3.is_app(t) and t.decl().name() == "kseed" and z3.is_int_value(t.arg(0)) and nw == 2
+            for w in range(nw):
+                out[i + (w,)] = ((t.arg(0).as_long() >> 32, t.arg(0).as_long() & 0xFFFFFFFF)[w]) if conc else kdata(w)(t)
         return out
 
     def p_random_bits(self, e, k):
         raise Unsupported("random_bits reached: a jax.random sampler is not stubbed")
 
-    p_random_unwrap = p_random_bits
     p_threefry2x32 = p_random_bits
 
     # ------------------------------------------------------------------ uninterpreted functions
@@ -853,7 +885,16 @@ class Interp:
     # ------------------------------------------------------------------ host callbacks
     def p_debug_callback(self, e, *ins):
         self.callbacks.append((str(e.params.get("callback")), list(ins)))
+        self._effect(e, ins, [])
         return []
+
+    def _effect(self, e, ins, outs):
+        g = True
+        for c in self.guards:
+            g = self.o.land(g, c)
+        ordered = any("Ordered" in type(x).__name__ or "ordered" in str(x).lower() for x in (getattr(e, "effects", None) or ())) or bool(e.params.get("ordered", False))
+        self.effects.append({"kind": e.primitive.name, "seq": len(self.effects), "ordered": ordered, "params": e.params, "ins": list(ins), "outs": list(outs), "guard": g,
+                             "out_avals": [(tuple(v.aval.shape), str(v.aval.dtype)) for v in e.outvars]})
 
     p_debug_print = p_debug_callback
 
@@ -872,6 +913,7 @@ class Interp:
                 o[idx] = UFun(fname, [x.sort() for x in flat], self.o.sort_of(ov.aval.dtype))(*flat) if flat else z3.Const(fname, self.o.sort_of(ov.aval.dtype))
             outs.append(o)
         self.callbacks.append(("io_callback", list(ins)))
+        self._effect(e, ins, outs)
         return outs
 
     p_pure_callback = p_io_callback
